@@ -49,6 +49,32 @@ let at o l = Printf.sprintf "@%s+%s" (string_of_n o) (string_of_n l)
 let c_rr = function Ok r -> "ok(" ^ at r.r_off r.r_len ^ ")" | Err e -> "e:" ^ show_err e | Fault _ -> "fault"
 let c_opt f = function Some x -> "some(" ^ f x ^ ")" | None -> "none"
 
+
+(* ---- second round: value-only forms of the rows `m.*`, the JSON text token ---- *)
+let fnv (s : string) : string =
+  let h = ref 0xcbf29ce484222325L in
+  String.iter (fun c -> h := Int64.mul (Int64.logxor !h (Int64.of_int (Char.code c))) 0x100000001b3L) s;
+  Printf.sprintf "%Lx" !h
+let long_values = (try ignore (Sys.getenv "WJ_LONG"); true with Not_found -> false)
+let hl s = if String.length s > 160 && not long_values then Printf.sprintf "#%s+%d" (fnv s) (String.length s) else s
+let rec take k l = if k <= 0 then [] else match l with [] -> [] | x :: t -> x :: take (k - 1) t
+let jn l sep = if l = [] then "-" else String.concat sep l
+let v_err e = "e." ^ show_err e
+let v_x = function Ok (Symbol r) -> "sym." ^ string_of_n r | Ok (Forward s) -> "fwd." ^ hex_of_nlist s | Err e -> v_err e | Fault _ -> "fault"
+let v_n = function Ok s -> "n." ^ hex_of_nlist s | Err e -> v_err e | Fault _ -> "fault"
+let v_r f = function Ok x -> f x | Err e -> v_err e | Fault _ -> "fault"
+let pct_of_nlist (l : n list) : string =
+  let b = Buffer.create 4096 in
+  List.iter (fun x -> let c = int_of_n x in
+    if c <= 0x20 || c >= 0x7f || c = 37 then Buffer.add_string b (Printf.sprintf "%%%02X" c) else Buffer.add_char b (Char.chr c)) l;
+  Buffer.contents b
+let nlist_of_pct (s : string) : n list =
+  let n = String.length s in
+  let rec go i acc = if i >= n then List.rev acc
+    else if s.[i] = '%' && i + 2 < n then go (i + 3) (n_of_int (hexval s.[i+1] * 16 + hexval s.[i+2]) :: acc)
+    else go (i + 1) (n_of_int (Char.code s.[i]) :: acc) in
+  go 0 []
+
 let split_first c s = match String.index_opt s c with
   | Some i -> (String.sub s 0 i, String.sub s (i+1) (String.length s - i - 1)) | None -> (s, "")
 
@@ -116,6 +142,36 @@ let handle kind fs obs =
        | "sentf" -> let k = z_of_n (n 3) in let pr x = Z.equal (Z.logand (z_of_n x) (Z.of_int 255)) k in
          both (fun wr -> c_rr (if wr then wrap_derva_slice_f w file m (n 1) (n 2) (n 2) pr else op_derva_slice_f fspec file m (n 1) (n 2) (n 2) pr))
        | "cstr" -> both (fun wr -> let r = c_rr (if wr then wrap_derva_c_str w file m (n 1) else op_derva_c_str fspec file m (n 1)) in Printf.sprintf "(%s;%s)" r r)
+       | "m.by.iter" | "m.by.iter_names" | "m.by.iter_name_indices" ->
+         both (fun wr ->
+           let fm = if wr then f else fspec in
+           let by = if wr then (match wrap_exports_by w file m with Ok x -> Ok (winto x) | Err e -> Err e | Fault y -> Fault y) else op_exports_by fspec file m in
+           hl (v_r (fun t ->
+             match p.(0) with
+             | "m.by.iter" -> let t = { t with t_funcs = take 64 t.t_funcs } in
+               jn (List.map v_x (if wr then wby_iter w (fun g -> op_cstr g file m) t else iter0 (op_cstr fm file m) t)) ","
+             | "m.by.iter_names" -> let t = { t with t_names = take 64 t.t_names } in
+               jn (List.map (fun (a, b) -> Printf.sprintf "(%s;%s)" (v_n a) (v_x b)) (if wr then wby_iter_names w (fun g -> op_cstr g file m) t else iter_names (op_cstr fm file m) t)) ","
+             | _ -> let t = { t with t_names = take 64 t.t_names } in
+               jn (List.map (fun (a, i) -> Printf.sprintf "(%s;%s)" (v_n a) (string_of_n i)) (if wr then wby_iter_name_indices w (fun g -> op_cstr g file m) t else iter_name_indices (op_cstr fm file m) t)) ",") by))
+       | "m.imp.int" | "m.imp.iat" ->
+         both (fun wr ->
+           let fm = if wr then f else fspec in
+           hl (v_r (fun r ->
+             let descs = if wr then List.map winto (wrap_imports_iter w file m r) else op_descs fspec file m r in
+             jn (List.map (fun d ->
+               if p.(0) = "m.imp.int" then
+                 v_r (fun l -> "[" ^ jn (List.map (fun i -> match i with
+                     | Ok (ByName (h, nm)) -> Printf.sprintf "n.%s.%s" (string_of_n h) (hex_of_nlist (List.init (int_of_n nm.r_len - 1) (fun k -> get (n_of_int (int_of_n nm.r_off + k)))))
+                     | Ok (ByOrdinal o) -> "o." ^ string_of_n o | Err e -> v_err e | Fault _ -> "fault") (take 64 l)) "," ^ "]")
+                   (if wr then wrap_desc_int w file m d else op_desc_int fspec file m d)
+               else
+                 v_r (fun l -> "[" ^ jn (List.map string_of_n (take 64 l)) "," ^ "]")
+                   (if wr then (match wrap_desc_iat w file m d with Ok x -> Ok (winto x) | Err e -> Err e | Fault y -> Fault y) else op_desc_iat fspec file m d))
+               (take 8 descs)) "|") (op_imports fm file m)))
+       | "m.dbg.into_iter" ->
+         both (fun wr -> let fm = if wr then f else fspec in
+           v_r (fun r -> string_of_int (if wr then List.length (wrap_debug_iter w file m r) else List.length (op_debug_dirs fspec file m r))) (op_debug fm file m))
        | _ -> None) in
     let show_acc r = (match r with Ok _ -> "ok" | Err e -> "e:" ^ show_err e | Fault _ -> "fault") in
     let accs = [ ("exports", acc_exports fspec file m); ("tls", acc_tls fspec file m); ("load_config", acc_load_config fspec file m);
@@ -151,6 +207,27 @@ let handle kind fs obs =
         else if name = "acc.verdicts" then Printf.sprintf "J:%s=%s~-" name verdicts
         else if name = "details.dd_sections" then Printf.sprintf "J:%s=%s~%s" name details details
         else t
+      end else if String.length t > 3 && String.sub t 0 3 = "JT:" then begin
+        let body = String.sub t 3 (String.length t - 3) in
+        if body = "!big" then (tag "json-big"; t) else begin
+          (* coverage of the branches of the serialization model, read off the implementation's text *)
+          let has sub = (let n = String.length body and k = String.length sub in
+            let rec go i = i + k <= n && (String.sub body i k = sub || go (i + 1)) in go 0) in
+          List.iter (fun (sub, tg) -> if has sub then tag tg)
+            [ ("\\u00", "j-escape-u00"); ("\\\\x", "j-cstr-hex"); ("\"Name\":[", "j-secname-bytes"); ("\"entry\":[{", "j-entry-pgo");
+              ("\"entry\":[]", "j-entry-empty-array"); ("\"entry\":{}", "j-entry-dbg"); ("\"entry\":{\"format", "j-entry-codeview");
+              ("%C3%A9", "j-utf8-2byte"); ("%E2%82%AC", "j-utf8-3byte"); ("%F0%9F%98%80", "j-utf8-4byte"); ("\\\"", "j-escape-quote");
+              ("\"ByOrdinal\"", "j-import-by-ordinal"); ("\"callbacks\":null", "j-callbacks-null"); ("\"raw_data\":null", "j-rawdata-null") ];
+          let text = nlist_of_pct body in
+          let model = json_of_image fspec file m in
+          if json_text_ok model text then tag "json-model-ok" else fail "json-text";
+          (* the model's own text: its nine members followed by the implementation's "resources" member (not modelled) *)
+          (match model with
+           | Ok (JObj members) ->
+             let res_member = (match parse_json text with Some (JObj l) -> List.filter (fun (k, _) -> k = k_resources) l | _ -> []) in
+             "JT:" ^ pct_of_nlist (print_json (JObj (members @ res_member)))
+           | Ok _ -> "JT:!model-not-an-object" | Err e -> "JT:!model-" ^ show_err e | Fault _ -> "JT:!model-fault")
+        end
       end else if String.length t > 5 && String.sub t 0 5 = "json=" then begin
         json_seen := true;
         if t <> "json=ok" then fail "json"; "json=ok"
